@@ -5,7 +5,7 @@ import itertools
 from sa.loader import AnalysisError, norm, walk_local
 from sa.cfg import cfg_of
 from sa import guards
-from .common import analysis, names_in
+from .common import analysis, names_in, true_facts, truthy_texts
 from .c09 import label_slice
 
 PROP = "C10"
@@ -74,8 +74,12 @@ def run(ctx):
     vm = p.func("_validation_py:validate_many")
     cfg = cfg_of(vm)
     rets = [n for n in walk_local(vm.node) if isinstance(n, ast.Return)]
-    tests = [t for t in cfg.nodes if t.kind == "test" and norm(t.ast) in ("raise_errors and errors", "errors and raise_errors")]
-    ok = len(rets) == 1 and norm(rets[0].value) == "all(results)" and len(tests) == 1 and cfg.dominates(tests[0], cfg.node_of(rets[0]))
+    raises = [n for n in walk_local(vm.node) if isinstance(n, ast.Raise) and n.exc is not None and "ValidationError" in norm(n.exc)]
+    ok = len(rets) == 1 and norm(rets[0].value) == "all(results)" and len(raises) == 1
+    if ok:
+        facts = true_facts(cfg, cfg.node_of(raises[0]))
+        rfacts = true_facts(cfg, cfg.node_of(rets[0]))
+        ok = "raise_errors" in facts and bool(truthy_texts("errors") & facts) and "raise_errors" not in rfacts
     ctx.check("C10.R2", "validate_many: collected errors re-raised when asked, else all(results)", ok, vm.where(), f"validate_many: {[norm(r.value) for r in rets]}", "validate_many must raise the collected errors when raise_errors is set and otherwise return the conjunction")
 
     # ---- R3 gate before bytes -------------------------------------------------------------------
